@@ -191,7 +191,7 @@ struct Options {
     uint64_t cases = 1000, seed = 1, worker = 0;
     std::string out, replay, only, hashdump, faildir = ".";
     std::vector<std::string> excludes;
-    bool nofork = false, forkall = false, enumerate = false;
+    bool nofork = false, forkall = false, enumerate = false, crash_only = false;
     uint64_t nworkers = 1, enum_stride = 1;
     int level = 0;
     std::string casefile;
@@ -212,6 +212,13 @@ inline bool excluded_tag(const std::string &t)
 {
     for (auto &e : opts().excludes) if (e == t) return true;
     return false;
+}
+
+// memory-safety-only runs (--crash-only): a case fails only if the process executing it died or a sanitizer reported;
+// wrong values are counted but not treated as failures (they belong to the functional property)
+inline bool crashy(const std::string &why)
+{
+    return why.rfind("process died", 0) == 0 || why.rfind("process exited with status", 0) == 0 || why.find("Sanitizer") != std::string::npos;
 }
 
 inline uint64_t mix(uint64_t a, uint64_t b)
@@ -279,6 +286,7 @@ inline int harness_main(int argc, char **argv, const char *harness, std::vector<
         else if (a == "--nofork") o.nofork = true;
         else if (a == "--forkall") o.forkall = true;
         else if (a == "--enumerate") o.enumerate = true;
+        else if (a == "--crash-only") o.crash_only = true;
         else if (a == "--nworkers") o.nworkers = strtoull(nxt().c_str(), 0, 0);
         else if (a == "--level") o.level = atoi(nxt().c_str());
         else if (a == "--enum-stride") o.enum_stride = std::max<uint64_t>(1, strtoull(nxt().c_str(), 0, 0));
@@ -312,6 +320,7 @@ inline int harness_main(int argc, char **argv, const char *harness, std::vector<
             any = true;
             Ctx ctx;
             bool ok = ((pd->forked || o.forkall) && !o.nofork) ? run_forked(pd->body, c, ctx) : pd->body(c, ctx);
+            if (!ok && o.crash_only && !crashy(ctx.why)) ok = true;
             printf("REPLAY %s %s : %s\n", harness, (pd->describe ? pd->describe(c) : c.str()).c_str(), ok ? "holds" : ("FAILS: " + ctx.why).c_str());
             if (!ok) rc_ = 1;
         }
@@ -344,6 +353,7 @@ inline int harness_main(int argc, char **argv, const char *harness, std::vector<
                 Ctx ctx;
                 casefile_note(c);
                 bool ok = ((p.forked || o.forkall) && !o.nofork) ? run_forked(p.body, c, ctx) : p.body(c, ctx);
+                if (!ok && o.crash_only && !crashy(ctx.why)) { ok = true; stats().classes["value-mismatch-not-counted-here"]++; }
                 account(p, c, ctx);
                 if (!ok) {
                     Failure f; f.prop = p.name; f.casestr = c.str(); f.why = ctx.why; f.desc = p.describe ? p.describe(c) : c.str();
@@ -369,6 +379,7 @@ inline int harness_main(int argc, char **argv, const char *harness, std::vector<
             Ctx ctx;
             casefile_note(c);
             bool ok = ((p.forked || o.forkall) && !o.nofork) ? run_forked(p.body, c, ctx) : p.body(c, ctx);
+            if (!ok && o.crash_only && !crashy(ctx.why)) { ok = true; stats().classes["value-mismatch-not-counted-here"]++; }
             if (seen_fail) { stats().shrink_evals++; progress() = progress() + 1; } else account(p, c, ctx);
             if (!ok) { seen_fail = true; lastfail = c; lastwhy = ctx.why; }
             RC_ASSERT(ok);
